@@ -38,7 +38,7 @@ def gen_cases(rng, quick, maxl=5):
         if rng.random() < 0.4:   # small coefficients
             for p in U["prims"]:
                 p[3] *= 10 ** rng.uniform(-6, -2)
-        mode = i % 4
+        mode = i % 5
         if mode == 0:    # far shells, diffuse enough to reach
             rA, rB = rng.uniform(4, 40), rng.uniform(4, 40)
             lo, hi = 0.01, 0.5
@@ -48,6 +48,9 @@ def gen_cases(rng, quick, maxl=5):
         elif mode == 2:  # tight exponents at moderate distance
             rA, rB = rng.uniform(1, 6), rng.uniform(1, 6)
             lo, hi = 1.0, 200.0
+        elif mode == 4:  # very tight shells a few bohr out: the shell-pair estimate exponentiates large arguments
+            rA, rB = rng.uniform(1.5, 8), rng.uniform(0.3, 8)
+            lo, hi = 30.0, 5000.0
         else:            # ordinary
             rA, rB = rng.uniform(0.3, 4), rng.uniform(0.3, 4)
             lo, hi = 0.05, 10.0
@@ -123,7 +126,8 @@ def main(ctx, cases=None):
     out = []
     if fails:
         sws = tuple(SUBSETS)
-        pl.run_model([f[0] for f in fails], sws)
+        if proofs_ok and not corr_bad:      # counterfactuals are only usable when model and code agree
+            pl.run_model([f[0] for f in fails[:40]], sws)
         for r, s, d, tol in fails:
             fid, table = None, {}
             for sw in SUBSETS:
